@@ -6,6 +6,7 @@ import (
 	"log/slog"
 	"net/http"
 	"reservoir/utils/syncmap"
+	"sync"
 	"time"
 )
 
@@ -38,8 +39,13 @@ func StartSessionGC() {
 			now := time.Now()
 			for item := range sessionStore.Items() {
 				if item.ExpiresAt.Before(now) {
-					sessionStore.Delete(item.ID)
-					slog.Debug("Deleted expired session", "session_id", item.ID)
+					sessionMu.Lock()
+					// The snapshot may be old: only a session that is still expired is removed
+					if current, ok := sessionStore.Get(item.ID); ok && current.ExpiresAt.Before(now) {
+						sessionStore.Delete(item.ID)
+						slog.Debug("Deleted expired session", "session_id", item.ID)
+					}
+					sessionMu.Unlock()
 				}
 			}
 		}
@@ -47,7 +53,14 @@ func StartSessionGC() {
 	gcRunning = true
 }
 
+// Looking a session up and writing its extended copy back are two steps on the store; a logout (or the
+// removal of an expired session) must not fall between them, or the write-back would bring the session back.
+var sessionMu sync.Mutex
+
 func GetSession(sid string) (*Session, bool) {
+	sessionMu.Lock()
+	defer sessionMu.Unlock()
+
 	sess, ok := sessionStore.Get(sid)
 
 	if !ok {
@@ -119,6 +132,9 @@ func (s *Session) BuildSessionCookie() *http.Cookie {
 }
 
 func (s *Session) Destroy() {
+	sessionMu.Lock()
+	defer sessionMu.Unlock()
+
 	sessionStore.Delete(s.ID)
 	slog.Debug("Destroyed session", "session_id", s.ID)
 }
